@@ -38,7 +38,7 @@ FILTER_CLASSES = ("ModuleFilter", "ModuleNameFilter", "ParentModuleNameFilter", 
 REGEX_FILTER = "ModuleNameRegexFilter"
 NAME_METHODS = {"importer", "importee", "importer_parent_modules", "importee_parent_modules"}
 NAME_FUNCS = {"get_parent_modules", "_get_module_name", "get_node"}
-STR_REL_METHODS = {"startswith", "endswith", "removeprefix", "removesuffix", "find", "index", "rfind", "rindex", "count", "replace", "partition", "rpartition"}
+STR_REL_METHODS = {"startswith", "endswith", "removeprefix", "removesuffix", "find", "index", "rfind", "rindex", "count", "replace", "partition", "rpartition", "lstrip", "rstrip", "strip"}
 SEARCH_METHODS = {"find", "rfind", "index", "rindex"}
 WRAPPERS = {"sorted", "list", "set", "reversed", "tuple", "frozenset", "iter"}
 
@@ -481,6 +481,9 @@ class Origins:
                     for m, v in vals:
                         out += self.value(m, v, d, seen, pos)
                     return out
+            got = self._attribute(f, e, d, seen, pos)
+            if got is not None:
+                return got
             return [(f, e, "value" if not pos else "opaque")]
         if isinstance(e, ast.Call):
             nm = _call_name(e)
@@ -507,6 +510,9 @@ class Origins:
                 return out
             return [(f, e, "value" if not pos else "opaque")]
         if isinstance(e, ast.Subscript) and not isinstance(e.slice, ast.Slice):
+            vals = self.dict_values(f, e.value, d, seen, pos)
+            if vals is not None:
+                return vals
             if self._is_dict(f, e.value):
                 return [(f, e, "value" if not pos else "opaque")]
             if isinstance(e.slice, ast.Constant) and isinstance(e.slice.value, int) and isinstance(e.value, (ast.Tuple, ast.List)):
@@ -516,6 +522,128 @@ class Origins:
                 return self.value(f, e.value, d, seen, (e.slice.value,) + pos)
             return self.elements(f, e.value, d, seen, pos)
         return [(f, e, "value" if not pos else "opaque")]
+
+    def _attribute(self, f: FuncInfo, e: ast.Attribute, d: int, seen: frozenset, pos: tuple) -> list[Leaf] | None:
+        """`obj.attr` for a receiver of a repo class: the returns of a property, or what the constructor calls pass for a field."""
+        t = self.T.expr(f, e.value)
+        if isinstance(e.value, ast.Name) and e.value.id in ("self", "cls") and f.cls is not None:
+            t = ("cls", f.cls.fq)
+        cls_ = [self.repo.classes.get(m[1]) for m in members(t) if m[0] == "cls"]
+        if not cls_ or any(c is None for c in cls_) or len(cls_) != len(members(t)):
+            return None
+        out: list[Leaf] = []
+        for ci in cls_:
+            meth = self.repo.lookup_method(ci, e.attr)
+            if meth is not None and meth.is_property:
+                for impl in self.repo.implementations(ci, e.attr):
+                    rets = self._returns(impl)
+                    if not rets:
+                        return None
+                    for r in rets:
+                        out += self.value(impl, r, d, seen, pos)
+                continue
+            if meth is not None:
+                return None
+            # a field: assignments in the class, else the arguments of constructor calls (dataclass / NamedTuple style)
+            probe = next(iter(ci.methods.values()), None)
+            vals = self._field_assignments(probe, e.attr) if probe is not None and probe.cls is ci else []
+            if vals:
+                for m, v in vals:
+                    out += self.value(m, v, d, seen, pos)
+                continue
+            fields = [a for c in reversed(self.repo.mro(ci)) for a in c.ann_attrs]
+            if e.attr not in fields or self.repo.lookup_method(ci, "__init__") is not None:
+                return None
+            found = False
+            for g in self.repo.all_functions():
+                for c in calls_in(g.node):
+                    if _call_name(c) != ci.name:
+                        continue
+                    k = self.T.ctor_class(g, c)
+                    if k is None or k.fq != ci.fq:
+                        continue
+                    arg = next((kw.value for kw in c.keywords if kw.arg == e.attr), None)
+                    if arg is None and fields.index(e.attr) < len(c.args):
+                        arg = c.args[fields.index(e.attr)]
+                    if arg is None:
+                        default = next((c2.class_attrs.get(e.attr) for c2 in self.repo.mro(ci) if e.attr in c2.class_attrs), None)
+                        if default is None:
+                            return None
+                        out.append((g, default, "value"))
+                    else:
+                        out += self.value(g, arg, d, seen, pos)
+                    found = True
+            if not found:
+                return None
+        return out or None
+
+    def dict_values(self, f: FuncInfo, dct: ast.expr, d: int, seen: frozenset, pos: tuple) -> list[Leaf] | None:
+        """Leaves of the values of a dict built locally (comprehension, literal, item assignments); None if it is not one."""
+        if isinstance(dct, ast.Attribute) and isinstance(dct.value, ast.Name) and dct.value.id in ("self", "cls") and f.cls is not None:
+            vals = self._field_assignments(f, dct.attr)
+            if not vals:
+                return None
+            out: list[Leaf] = []
+            for m, src in vals:
+                if isinstance(src, ast.DictComp):
+                    out += self.value(m, src.value, d, seen, pos)
+                elif isinstance(src, ast.Dict) and all(k is not None for k in src.keys):
+                    for v in src.values:
+                        out += self.value(m, v, d, seen, pos)
+                elif isinstance(src, ast.Name):
+                    sub = self.dict_values(m, src, d, seen, pos)
+                    if sub is None:
+                        return None
+                    out += sub
+                elif not (isinstance(src, (ast.Dict,)) or (isinstance(src, ast.Call) and _call_name(src) in ("dict", "defaultdict") and not src.args)):
+                    return None
+            text = norm(dct)
+            for ci in [*self.repo.mro(f.cls), *self.repo.subclasses(f.cls)]:
+                for m in [*ci.methods.values(), *ci.extra_methods]:
+                    for n in own_nodes(m.node):
+                        if isinstance(n, ast.Assign):
+                            for t in n.targets:
+                                if isinstance(t, ast.Subscript) and norm(t.value) == text:
+                                    out += self.value(m, n.value, d, seen, pos)
+                        if isinstance(n, ast.Call) and isinstance(n.func, ast.Attribute) and norm(n.func.value) == text:
+                            if n.func.attr == "setdefault" and len(n.args) == 2:
+                                out += self.value(m, n.args[1], d, seen, pos)
+                            elif n.func.attr == "update":
+                                return None
+            return out or None
+        if not isinstance(dct, ast.Name) or isinstance(f.node, ast.Lambda):
+            return None
+        binds = self._bindings(f, dct.id)
+        if dct.id in f.param_names or not binds:
+            if not binds and f.outer is not None and dct.id not in f.param_names:
+                return self.dict_values(f.outer, dct, d, seen, pos)
+            return None
+        out: list[Leaf] = []
+        for kind, src, p in binds:
+            if kind != "value" or p:
+                return None
+            if isinstance(src, ast.DictComp):
+                out += self.value(f, src.value, d, seen, pos)
+            elif isinstance(src, ast.Dict):
+                if any(k is None for k in src.keys):
+                    return None
+                for v in src.values:
+                    out += self.value(f, v, d, seen, pos)
+            elif isinstance(src, ast.Call) and _call_name(src) in ("dict", "defaultdict", "OrderedDict") and not src.args and not src.keywords:
+                pass
+            else:
+                return None
+        for n in own_nodes(f.node):
+            if isinstance(n, ast.Assign):
+                for t in n.targets:
+                    if isinstance(t, ast.Subscript) and isinstance(t.value, ast.Name) and t.value.id == dct.id:
+                        out += self.value(f, n.value, d, seen, pos)
+            if isinstance(n, ast.Call) and isinstance(n.func, ast.Attribute) and isinstance(n.func.value, ast.Name) and n.func.value.id == dct.id:
+                if n.func.attr == "setdefault" and len(n.args) == 2:
+                    out += self.value(f, n.args[1], d, seen, pos)
+                elif n.func.attr == "update":
+                    return None
+        return out or None
 
     def _is_dict(self, f: FuncInfo, e: ast.expr) -> bool:
         t = self.T.expr(f, e)
@@ -819,6 +947,8 @@ def _leaf_status(repo: Repo, g: FuncInfo, e: ast.expr, kind: str, depth: int) ->
         if e.value is None:
             return "none"
         return "dot" if isinstance(e.value, str) and e.value.endswith(".") else "bare"
+    if isinstance(e, (ast.Tuple, ast.GeneratorExp, ast.ListComp)):
+        return dot_status(repo, g, ast.Starred(value=e, ctx=ast.Load()), depth + 1)
     if isinstance(e, ast.JoinedStr):
         if not e.values:
             return "bare"
@@ -879,8 +1009,20 @@ def _leaf_status(repo: Repo, g: FuncInfo, e: ast.expr, kind: str, depth: int) ->
             return "dot" if s.endswith(".") else ("unknown" if s.endswith("}") else "bare")
         if isinstance(fn, ast.Attribute) and nm in ("lower", "upper", "casefold", "lstrip", "removeprefix"):
             return dot_status(repo, g, fn.value, depth + 1)
+        if isinstance(fn, ast.Name) and nm in ("tuple", "list", "sorted", "set", "frozenset") and len(e.args) >= 1:
+            # str.startswith accepts a tuple of prefixes: all of them count
+            return dot_status(repo, g, ast.Starred(value=e.args[0], ctx=ast.Load()), depth + 1)
         return "unknown"
     if isinstance(e, ast.Subscript):
+        if isinstance(e.slice, ast.Slice) and e.slice.step is None:
+            lo, hi = e.slice.lower, e.slice.upper
+            neg_hi = isinstance(hi, ast.UnaryOp) and isinstance(hi.op, ast.USub) and isinstance(hi.operand, ast.Constant) and isinstance(hi.operand.value, int) and hi.operand.value > 0
+            if lo is None and neg_hi:
+                inner = dot_status(repo, g, e.value, depth + 1)
+                return "bare" if inner in ("dot", "bare") else "unknown"  # the trailing separator (or more) is cut off
+            if hi is None and lo is not None:
+                return dot_status(repo, g, e.value, depth + 1)  # the end of the string is kept
+            return "unknown"
         if not isinstance(e.slice, ast.Slice):
             # element of split('.') / rsplit('.', 1) / partition: a component or a run of whole components
             v = e.value
@@ -1025,8 +1167,19 @@ def local_defs(repo: Repo, f: FuncInfo) -> dict[str, ast.expr]:
 def _expand(repo: Repo, f: FuncInfo, e: ast.expr, depth: int = 0) -> ast.expr:
     if depth < 4 and isinstance(e, ast.Name):
         d = local_defs(repo, f).get(e.id)
-        if d is not None and isinstance(d, (ast.JoinedStr, ast.BinOp, ast.Name)):
+        if d is None and f.outer is not None and not _is_local(f, e.id):
+            d = local_defs(repo, f.outer).get(e.id)
+        if d is not None and isinstance(d, (ast.JoinedStr, ast.BinOp, ast.Name, ast.Subscript)):
             return _expand(repo, f, d, depth + 1)
+    if depth < 4 and isinstance(e, ast.Subscript) and isinstance(e.value, ast.Name) and not isinstance(e.slice, ast.Slice):
+        # prefixes[m] with prefixes = {k: k + "." for k in ..}  is  m + "."
+        d = local_defs(repo, f).get(e.value.id)
+        if d is None and f.outer is not None and not _is_local(f, e.value.id):
+            d = local_defs(repo, f.outer).get(e.value.id)
+        if isinstance(d, ast.DictComp) and isinstance(d.key, ast.Name) and len(d.generators) == 1:
+            free = {x.id for x in ast.walk(d.value) if isinstance(x, ast.Name) and isinstance(x.ctx, ast.Load)}
+            if free <= {d.key.id}:
+                return _substitute(d.value, {d.key.id: e.slice})
     return e
 
 
@@ -1039,6 +1192,13 @@ def _is_dotted_form(e: ast.expr, others: set[str]) -> bool:
         return norm(v) in others and e.values[0].conversion in (-1, 115) and e.values[0].format_spec is None
     if isinstance(e, ast.BinOp) and isinstance(e.op, ast.Add) and _const_str(e.right) == ".":
         return norm(e.left) in others
+    if isinstance(e, ast.BinOp) and isinstance(e.op, ast.Mod) and _const_str(e.left) == "%s.":
+        r = e.right.elts[0] if isinstance(e.right, ast.Tuple) and len(e.right.elts) == 1 else e.right
+        return norm(r) in others
+    if isinstance(e, ast.Call) and isinstance(e.func, ast.Attribute) and e.func.attr == "format" and _const_str(e.func.value) in ("{}.", "{0}.") and len(e.args) == 1 and not e.keywords:
+        return norm(e.args[0]) in others
+    if isinstance(e, ast.Call) and isinstance(e.func, ast.Attribute) and e.func.attr == "join" and _const_str(e.func.value) == "." and len(e.args) == 1 and isinstance(e.args[0], (ast.List, ast.Tuple)) and len(e.args[0].elts) == 2 and _const_str(e.args[0].elts[1]) == "":
+        return norm(e.args[0].elts[0]) in others
     return False
 
 
@@ -1081,8 +1241,33 @@ def _relation_atoms(repo: Repo, f: FuncInfo, formula, hay: str, others: set[str]
     return safe, raw
 
 
+def _selected_from(repo: Repo, f: FuncInfo, name: str) -> tuple[str, list[ast.expr]] | None:
+    """`name` is one element of a filtered collection - `next(v for v in xs if c(v))`, `[v for v in xs if c(v)][0]`,
+    `max((v for ..), key=len)`, also through an intermediate local: the (variable, conditions) that hold for it."""
+    d = local_defs(repo, f).get(name)
+    for _ in range(6):
+        if d is None:
+            return None
+        if isinstance(d, ast.Call) and _call_name(d) in ("next", "min", "max", "sorted", "list", "tuple", "reversed", "iter") and d.args and isinstance(d.func, ast.Name):
+            d = d.args[0]
+        elif isinstance(d, ast.Subscript) and (not isinstance(d.slice, ast.Slice) or True):
+            d = d.value
+        elif isinstance(d, ast.Call) and _call_name(d) in ("pop", "popleft") and isinstance(d.func, ast.Attribute):
+            d = d.func.value
+        elif isinstance(d, ast.Name):
+            d = local_defs(repo, f).get(d.id)
+        else:
+            break
+    if isinstance(d, (ast.GeneratorExp, ast.ListComp, ast.SetComp)) and len(d.generators) == 1 and isinstance(d.elt, ast.Name) and dotted(d.generators[0].target) == d.elt.id:
+        return d.elt.id, list(d.generators[0].ifs)
+    if isinstance(d, ast.Call) and _call_name(d) == "filter" and len(d.args) == 2 and isinstance(d.args[0], ast.Lambda) and len(d.args[0].args.args) == 1:
+        return d.args[0].args.args[0].arg, [d.args[0].body]
+    return None
+
+
 def _site_facts(repo: Repo, f: FuncInfo, node: ast.AST, other: str):
-    """Path condition of `node` (private helper predicates inlined) plus what `X = next(v for v in .. if test(v))` establishes for X."""
+    """Path condition of `node` (private helper predicates inlined) plus what selecting X from a filtered collection
+    (`X = next(v for v in .. if test(v))`, `X = [v for v in .. if test(v)][0]`) establishes for X."""
     from core.guards import f_and, to_formula
 
     from .common import copy_prop, guard_formula
@@ -1090,14 +1275,12 @@ def _site_facts(repo: Repo, f: FuncInfo, node: ast.AST, other: str):
     facts = [guard_formula(f, node)]
     others = {other}
     if not isinstance(f.node, ast.Lambda):
-        for a_ in own_nodes(f.node):
-            if isinstance(a_, ast.Assign) and dotted(a_.targets[0]) == other and isinstance(a_.value, ast.Call) and dotted(a_.value.func) == "next" and a_.value.args and isinstance(a_.value.args[0], ast.GeneratorExp):
-                gen = a_.value.args[0]
-                if isinstance(gen.elt, ast.Name) and len(gen.generators) == 1:
-                    v = gen.elt.id
-                    others.add(v)
-                    for cond in gen.generators[0].ifs:
-                        facts.append(to_formula(cond, copy_prop(f)))
+        sel = _selected_from(repo, f, other)
+        if sel is not None:
+            v, conds_ = sel
+            others.add(v)
+            for cond in conds_:
+                facts.append(to_formula(cond, copy_prop(f)))
     return f_and(facts), others
 
 
@@ -1346,6 +1529,17 @@ def _index_cut(repo: Repo, f: FuncInfo, node: ast.Subscript, bound: ast.expr, is
     core, off = _strip_offset(bound)
     if isinstance(core, ast.Name):
         d = local_defs(repo, f).get(core.id)
+        if d is None and not isinstance(f.node, ast.Lambda) and core.id not in f.param_names:
+            # assigned several times, every time the position of a separator in the same string: `i = s.find("."); while i != -1: ..; i = s.find(".", i + 1)`
+            binds = origins(repo)._bindings(f, core.id)
+            vals = [src for kind, src, p_ in binds if kind == "value" and not p_]
+            if binds and len(vals) == len(binds) and all(isinstance(v, ast.Call) and isinstance(v.func, ast.Attribute) and v.func.attr in ("find", "rfind") and norm(v.func.value) == hay and v.args and _const_str(v.args[0]) == "." for v in vals):
+                if off == 0 and _found_guard(repo, f, node, hay, {core.id}):
+                    return "safe", "cut at a separator found by find/rfind, reached only when one was found"
+                if off == 1:
+                    return "safe", "cut one past the separator found by find/rfind"
+                if off == 0:
+                    return "unsafe", f"`{norm(node, 60)}`: find('.') is -1 for a name without (further) separator, the slice then cuts off the last character"
         if d is not None:
             texts.add(core.id)
             c2, o2 = _strip_offset(d)
@@ -1484,6 +1678,54 @@ def _slice_as_prefix_test(repo: Repo, f: FuncInfo, n: ast.Subscript) -> tuple[st
     return None
 
 
+def _remainder_only_examined(repo: Repo, f: FuncInfo, n: ast.AST) -> bool:
+    """The string left after cutting the prefix (`rest = name[len(p):]` / `name.removeprefix(p)`) is used for nothing but the test
+    that it is empty or starts with the separator - then the cut itself decides nothing."""
+    if isinstance(f.node, ast.Lambda):
+        return False
+    st = stmt_of(n)
+    uses: list[ast.AST] = []
+    if isinstance(st, ast.Assign) and st.value is n and len(st.targets) == 1 and isinstance(st.targets[0], ast.Name):
+        var = st.targets[0].id
+        stores = [x for x in own_nodes(f.node) if isinstance(x, ast.Name) and x.id == var and isinstance(x.ctx, ast.Store)]
+        if len(stores) != 1 or var in f.param_names:
+            return False
+        uses = [x for x in own_nodes(f.node) if isinstance(x, ast.Name) and x.id == var and isinstance(x.ctx, ast.Load)]
+    else:
+        uses = [n]
+    if not uses:
+        return False
+    dot_test = False
+    for u in uses:
+        p = parent(u)
+        ok = False
+        if isinstance(p, ast.Compare) and len(p.ops) == 1 and isinstance(p.ops[0], (ast.Eq, ast.NotEq)):
+            other = p.comparators[0] if p.left is u else p.left
+            if _const_str(other) == "":
+                ok = True
+            elif isinstance(other, (ast.Name, ast.Attribute, ast.Call)):
+                ok = True  # compared with the uncut name: "was anything removed?"
+        elif isinstance(p, ast.Attribute) and p.attr == "startswith" and isinstance(parent(p), ast.Call) and parent(p).args and _const_str(parent(p).args[0]) == ".":
+            ok = dot_test = True
+        elif isinstance(p, ast.Subscript) and p.value is u and norm(p.slice) in ("0", ":1"):
+            pp = parent(p)
+            if isinstance(pp, ast.Compare) and len(pp.ops) == 1:
+                c = pp.comparators[0] if pp.left is p else pp.left
+                if _const_str(c) == "." and isinstance(pp.ops[0], (ast.Eq, ast.NotEq)):
+                    ok = dot_test = True
+                elif isinstance(pp.ops[0], (ast.In, ast.NotIn)) and isinstance(c, (ast.Tuple, ast.List, ast.Set)) and sorted(str(_const_str(x)) for x in c.elts) == ["", "."]:
+                    ok = dot_test = True
+        elif isinstance(p, ast.UnaryOp) and isinstance(p.op, ast.Not):
+            ok = True
+        elif isinstance(p, (ast.BoolOp, ast.If, ast.While, ast.IfExp)) and (not isinstance(p, ast.IfExp) or p.test is u):
+            ok = True  # truthiness
+        elif isinstance(p, ast.Call) and _call_name(p) in ("len", "bool"):
+            ok = True
+        if not ok:
+            return False
+    return dot_test
+
+
 def _slice_by_len(repo: Repo, f: FuncInfo, n: ast.AST, other_e: ast.expr, boundary_funcs: set[str], depth: int = 0, hay_e: ast.expr | None = None) -> tuple[str, str]:
     """Verdict for removing the first len(other) characters of the name `hay` at node `n` (`hay[len(other):]`, `hay.removeprefix(other)`)."""
     from core.guards import f_or, implies
@@ -1500,6 +1742,8 @@ def _slice_by_len(repo: Repo, f: FuncInfo, n: ast.AST, other_e: ast.expr, bounda
             return "safe", "the other string is the name itself or one of its ancestors (get_parent_modules)"
         if f.fq in boundary_funcs or _boundary_predicate(repo, f, hay, other):
             return "safe", "the remainder is only examined by the boundary test of this predicate"
+        if _remainder_only_examined(repo, f, n):
+            return "safe", "the remainder is only tested to be empty or to start with the separator"
         if raw_a and implies(facts, f_or([*safe_a, *raw_a])):
             return "unsafe", f"`{norm(n, 60)}` cuts a module name at the length of another string without a boundary-safe prefix test"
     except AnalysisError:
@@ -1648,6 +1892,10 @@ def _scan(repo: Repo) -> list[Site]:
                     if not safe and st == "unknown":
                         sites.append(Site(f, n, op, hay, needle, True, "unknown", f"`{norm(n, 80)}`: cannot establish whether the prefix `{norm(needle, 40)}` ends with the separator '.'"))
                         continue
+                elif op in ("lstrip", "rstrip", "strip"):
+                    if const is not None or "NAME" not in tagged(needle):
+                        continue  # stripping constant characters (a trailing '.') is not a relation between names
+                    safe, why = False, f"`{norm(n, 80)}`: str.{op} removes *characters* of the other name from the end(s), not a prefix or suffix of whole components"
                 elif op in ("endswith", "removesuffix"):
                     if const is not None and not const.startswith("."):
                         sites.append(Site(f, n, op, hay, needle, True, "not-name", f"constant suffix {const!r}: a lexical test, not a relation between two module names"))
@@ -1788,7 +2036,7 @@ def _scan(repo: Repo) -> list[Site]:
                     sites.append(Site(f, n, fq, n.args[-1], pat, True, "unsafe", f"`{norm(n, 80)}`: a regular expression is built from an un-escaped module name ('.' matches any character; no component boundary)"))
                 elif "ESC:NAME" in ptags:
                     text = norm(_expand(repo, f, pat))
-                    safe = "(\\.|$)" in text or "(\\\\.|$)" in text or "\\." in text
+                    safe = "(\\.|$)" in text or "(\\\\.|$)" in text or "\\." in text or "\\b" in text or fq == "re.fullmatch"
                     sites.append(Site(f, n, fq, n.args[-1], pat, True, "safe" if safe else "unsafe", "escaped name followed by a component boundary" if safe else f"`{norm(n, 80)}`: escaped module name without a trailing component boundary"))
                 elif ptags & {"REGEX"}:
                     sites.append(Site(f, n, fq, n.args[-1], pat, False, "reviewed", "user-supplied regex"))
